@@ -36,12 +36,18 @@ def observe_query(sc, traced=True):
         if len(ms) <= k:
             return "nosrc"
         src = ms[k]
+    traced = traced and sc.get("traced", True)
     trace = make_trace(log) if traced else None
+    b.tracer = trace
     api = sc["api"]
     out = []
     if api in ("find_matches", "find"):
         fn = find_matches if api == "find_matches" else find
+        del log[:]
         it = fn(expr, src, trace=trace)
+        if log:
+            # something observable happened before the first next(): not lazy
+            out.append({"e": list(log), "s": ["C"]})
         for _ in range(sc.get("nexts", 1)):
             del log[:]
             try:
